@@ -350,6 +350,16 @@ pub fn fromstr_texts(d: &Decl, dom: &[Val], tier: Tier) -> Vec<String> {
     for s in ["1.00000005960464477539062500000000000000000001", "1.0000000596046447753906251", "16777217", "16777217.0000001", "1152921573326323713", "9007199254740993", "9007199254740993.0", "0.1000000014901161193847656250001", "1.00000000000000011102230246251565404236316680908203126", "-1.00000005960464477539062500000000000000000001"] {
         out.insert(s.to_string());
     }
+    // radix prefixes, alternative signs and digit spellings around short bodies: texts another parser (from_str_radix,
+    // a literal parser, a locale-aware one) accepts and the inner type's FromStr does not
+    for pre in ["0x", "0X", "0o", "0O", "0b", "0B", "#", "$", "x", "+0x", "-0x", "0x-", "0x+", "\u{2212}", "\u{ff0b}"] {
+        for body in ["", "0", "1", "7", "10", "ff", "FF", "1f", "5", "1.5", "1p3"] {
+            out.insert(format!("{pre}{body}"));
+        }
+    }
+    for s in ["1f32", "1u8", "1i32", "1.0f64", "1_0", "_1", "1_", "1e+2", "1E2", "1e2", "1e-2", "1d2", "0x1p3", "1h", "١٢", "1'000", "1 000", "1,000", "1.000,5", "½", "²", "1\u{200b}", "\u{200e}1", "TRUE", "true"] {
+        out.insert(s.to_string());
+    }
     let _ = d;
     out.into_iter().collect()
 }
